@@ -20,7 +20,7 @@
 import PercevalModel.Lemmas.C20Gates
 import PercevalModel.Lemmas.C20Comp
 import Mathlib.Tactic.IntervalCases
-import Mathlib.Analysis.SpecialFunctions.Pow.NNRpow
+import Mathlib.Analysis.Real.Sqrt
 
 open Matrix
 
@@ -55,6 +55,169 @@ def hczMatrix (r h c2 s2 : R) : Matrix (Fin 6) (Fin 6) R :=
      0, -(2*c2*h*r), 0, 2*h*r*s2, -(c2*r), r*s2;
      0, -(2*h*r*s2), 0, -(2*c2*h*r), -(r*s2), -(c2*r)]
 
+/-! ### the components as explicit 6×6 matrices (`embed_bs2`, `embed_bs4` are in C20Gates.lean) -/
+
+theorem embed_sw1 : embed 6 1 (permMatL (R := R) 2 [1, 0]) =
+    !![1, 0, 0, 0, 0, 0;
+     0, 0, 1, 0, 0, 0;
+     0, 1, 0, 0, 0, 0;
+     0, 0, 0, 1, 0, 0;
+     0, 0, 0, 0, 1, 0;
+     0, 0, 0, 0, 0, 1] := by
+  ext i j
+  fin_cases i <;> fin_cases j <;> simp [embed, place, unshift, permMatL]
+
+theorem embed_sw3 : embed 6 3 (permMatL (R := R) 2 [1, 0]) =
+    !![1, 0, 0, 0, 0, 0;
+     0, 1, 0, 0, 0, 0;
+     0, 0, 1, 0, 0, 0;
+     0, 0, 0, 0, 1, 0;
+     0, 0, 0, 1, 0, 0;
+     0, 0, 0, 0, 0, 1] := by
+  ext i j
+  fin_cases i <;> fin_cases j <;> simp [embed, place, unshift, permMatL]
+
+theorem embed_ps2 : embed 6 2 (psPi (R := R)) =
+    !![1, 0, 0, 0, 0, 0;
+     0, 1, 0, 0, 0, 0;
+     0, 0, -1, 0, 0, 0;
+     0, 0, 0, 1, 0, 0;
+     0, 0, 0, 0, 1, 0;
+     0, 0, 0, 0, 0, 1] := by
+  ext i j
+  fin_cases i <;> fin_cases j <;> simp [embed, place, unshift, psPi]
+
+theorem embed_ps5 : embed 6 5 (psPi (R := R)) =
+    !![1, 0, 0, 0, 0, 0;
+     0, 1, 0, 0, 0, 0;
+     0, 0, 1, 0, 0, 0;
+     0, 0, 0, 1, 0, 0;
+     0, 0, 0, 0, 1, 0;
+     0, 0, 0, 0, 0, -1] := by
+  ext i j
+  fin_cases i <;> fin_cases j <;> simp [embed, place, unshift, psPi]
+
+/-! ### the product, one component at a time -/
+
+def hczStep1 : Matrix (Fin 6) (Fin 6) R :=
+  !![1, 0, 0, 0, 0, 0;
+     0, 0, 1, 0, 0, 0;
+     0, 1, 0, 0, 0, 0;
+     0, 0, 0, 0, 1, 0;
+     0, 0, 0, 1, 0, 0;
+     0, 0, 0, 0, 0, 1]
+
+def hczStep2 : Matrix (Fin 6) (Fin 6) R :=
+  !![1, 0, 0, 0, 0, 0;
+     0, 0, 1, 0, 0, 0;
+     0, -(1), 0, 0, 0, 0;
+     0, 0, 0, 0, 1, 0;
+     0, 0, 0, 1, 0, 0;
+     0, 0, 0, 0, 0, 1]
+
+def hczStep3 : Matrix (Fin 6) (Fin 6) R :=
+  !![1, 0, 0, 0, 0, 0;
+     0, 0, 1, 0, 0, 0;
+     0, -(1), 0, 0, 0, 0;
+     0, 0, 0, 0, 1, 0;
+     0, 0, 0, 1, 0, 0;
+     0, 0, 0, 0, 0, -(1)]
+
+def hczStep4 (r h : R) : Matrix (Fin 6) (Fin 6) R :=
+  !![1, 0, 0, 0, 0, 0;
+     0, 0, 1, 0, 0, 0;
+     0, -(r), 0, 0, 2*h*r, 0;
+     0, -(2*h*r), 0, 0, -(r), 0;
+     0, 0, 0, 1, 0, 0;
+     0, 0, 0, 0, 0, -(1)]
+
+def hczStep5 (r h : R) : Matrix (Fin 6) (Fin 6) R :=
+  !![1, 0, 0, 0, 0, 0;
+     0, 0, 1, 0, 0, 0;
+     0, -(r), 0, 0, 2*h*r, 0;
+     0, -(2*h*r), 0, 0, -(r), 0;
+     0, 0, 0, r, 0, -(2*h*r);
+     0, 0, 0, 2*h*r, 0, r]
+
+def hczStep6 (r h : R) : Matrix (Fin 6) (Fin 6) R :=
+  !![1, 0, 0, 0, 0, 0;
+     0, 0, 1, 0, 0, 0;
+     0, -(r), 0, 0, 2*h*r, 0;
+     0, 0, 0, r, 0, -(2*h*r);
+     0, -(2*h*r), 0, 0, -(r), 0;
+     0, 0, 0, 2*h*r, 0, r]
+
+def hczStep7 (r h : R) : Matrix (Fin 6) (Fin 6) R :=
+  !![1, 0, 0, 0, 0, 0;
+     0, 0, 1, 0, 0, 0;
+     0, -(r^2), 0, -(2*h*r^2), 2*h*r^2, 4*h^2*r^2;
+     0, 2*h*r^2, 0, -(r^2), -(4*h^2*r^2), 2*h*r^2;
+     0, -(2*h*r), 0, 0, -(r), 0;
+     0, 0, 0, 2*h*r, 0, r]
+
+def hczStep8 (r h c2 s2 : R) : Matrix (Fin 6) (Fin 6) R :=
+  !![1, 0, 0, 0, 0, 0;
+     0, 0, 1, 0, 0, 0;
+     0, -(r^2), 0, -(2*h*r^2), 2*h*r^2, 4*h^2*r^2;
+     0, 2*h*r^2, 0, -(r^2), -(4*h^2*r^2), 2*h*r^2;
+     0, -(2*c2*h*r), 0, 2*h*r*s2, -(c2*r), r*s2;
+     0, -(2*h*r*s2), 0, -(2*c2*h*r), -(r*s2), -(c2*r)]
+
+theorem hcz_step1 : embed 6 3 (permMatL (R := R) 2 [1, 0]) * embed 6 1 (permMatL 2 [1, 0]) = hczStep1 (R := R) := by
+  rw [embed_sw3, embed_sw1]
+  ext i j
+  fin_cases i <;> fin_cases j <;> simp [hczStep1, Matrix.mul_apply, Fin.sum_univ_succ]
+
+theorem hcz_step2 : embed 6 2 psPi * hczStep1 (R := R) = hczStep2 (R := R) := by
+  rw [embed_ps2]
+  ext i j
+  fin_cases i <;> fin_cases j <;> simp [hczStep1, hczStep2, Matrix.mul_apply, Fin.sum_univ_succ]
+
+theorem hcz_step3 : embed 6 5 psPi * hczStep2 (R := R) = hczStep3 (R := R) := by
+  rw [embed_ps5]
+  ext i j
+  fin_cases i <;> fin_cases j <;> simp [hczStep2, hczStep3, Matrix.mul_apply, Fin.sum_univ_succ]
+
+theorem hcz_step4 (r h : R) : embed 6 2 (bsH r (2 * h * r)) * hczStep3 = hczStep4 r h := by
+  rw [embed_bs2]
+  ext i j
+  fin_cases i <;> fin_cases j <;> simp [hczStep3, hczStep4, Matrix.mul_apply, Fin.sum_univ_succ]
+
+theorem hcz_step5 (r h : R) : embed 6 4 (bsH r (2 * h * r)) * hczStep4 r h = hczStep5 r h := by
+  rw [embed_bs4]
+  ext i j
+  fin_cases i <;> fin_cases j <;> simp [hczStep4, hczStep5, Matrix.mul_apply, Fin.sum_univ_succ]
+
+theorem hcz_step6 (r h : R) : embed 6 3 (permMatL 2 [1, 0]) * hczStep5 r h = hczStep6 r h := by
+  rw [embed_sw3]
+  ext i j
+  fin_cases i <;> fin_cases j <;> simp [hczStep5, hczStep6, Matrix.mul_apply, Fin.sum_univ_succ]
+
+theorem hcz_step7 (r h : R) : embed 6 2 (bsH r (-(2 * h * r))) * hczStep6 r h = hczStep7 r h := by
+  rw [embed_bs2]
+  ext i j
+  fin_cases i <;> fin_cases j <;> simp [hczStep6, hczStep7, Matrix.mul_apply, Fin.sum_univ_succ] <;> ring
+
+theorem hcz_step8 (r h c2 s2 : R) : embed 6 4 (bsH c2 s2) * hczStep7 r h = hczStep8 r h c2 s2 := by
+  rw [embed_bs4]
+  ext i j
+  fin_cases i <;> fin_cases j <;> simp [hczStep7, hczStep8, Matrix.mul_apply, Fin.sum_univ_succ] <;> ring
+
+theorem hcz_step9 (r h c2 s2 : R) (hh : 2 * h * h = 1) :
+    embed 6 1 (permMatL 2 [1, 0]) * hczStep8 r h c2 s2 = hczMatrix r h c2 s2 := by
+  rw [embed_sw1]
+  ext i j
+  fin_cases i <;> fin_cases j <;>
+    simp [hczStep8, hczMatrix, Matrix.mul_apply, Fin.sum_univ_succ] <;>
+    first | ring1 | linear_combination (2 * r ^ 2) * hh
+
+/-- **the catalog's heralded CZ circuit is the explicit matrix** (uses only `2h² = 1`, to write the two
+entries `±4h²r²` as `±2r²`) -/
+theorem hczCircuit_eq (r h c2 s2 : R) (hh : 2 * h * h = 1) : hczCircuit r h c2 s2 = hczMatrix r h c2 s2 := by
+  unfold hczCircuit
+  rw [hcz_step1, hcz_step2, hcz_step3, hcz_step4, hcz_step5, hcz_step6, hcz_step7, hcz_step8,
+    hcz_step9 r h c2 s2 hh]
+
 /-! ### the logical amplitudes -/
 
 /-- control pair on modes 0,1, data pair on modes 2,3, heralds `4:1`, `5:1` -/
@@ -67,5 +230,240 @@ theorem enc_hcz (a b : Bool) :
 /-- the amplitude between two concrete 6-mode states as the Laplace expansion -/
 theorem hcz_pamp (U : Matrix (Fin 6) (Fin 6) R) (s t : List ℕ) (h : s.sum = t.sum) :
     pamp U s t = permRec (entry U) (expand t) (expand s) := PM.C02.pamp_eq_permRec U s t h
+
+/-- **modes 0 and 2 are spectators** -/
+theorem hcz_localOn (r h c2 s2 : R) : LocalOn [1, 3, 4, 5] (hczMatrix r h c2 s2) := by
+  intro i j hij
+  revert hij
+  fin_cases i <;> fin_cases j <;> simp [hczMatrix]
+
+/-- the spectator structure makes every off-diagonal logical amplitude vanish -/
+theorem hcz_amp_off (r h c2 s2 : R) (a b c d : Bool) (hne : ¬ (a = c ∧ b = d)) :
+    pamp (hczMatrix r h c2 s2) (encode hczLayout [c, d]) (encode hczLayout [a, b]) = 0 := by
+  by_contra h0
+  have h1 := pamp_local_eq (hcz_localOn r h c2 s2) _ _ (encode_length hczLayout [c, d])
+    (encode_length hczLayout [a, b]) h0 0 (by decide)
+  have h2 := pamp_local_eq (hcz_localOn r h c2 s2) _ _ (encode_length hczLayout [c, d])
+    (encode_length hczLayout [a, b]) h0 2 (by decide)
+  rw [enc_hcz, enc_hcz] at h1 h2
+  apply hne
+  revert h1 h2
+  cases a <;> cases b <;> cases c <;> cases d <;> simp
+
+/-! the four diagonal amplitudes and the four candidate leak amplitudes, by Laplace expansion; the
+cofactors of `linear_combination` were computed by multivariate division (sympy) -/
+
+theorem hcz_amp00 (r h c2 s2 : R) (hr : 3 * r * r = 1) (hh : 2 * h * h = 1)
+    (hc : 6 * c2 * c2 = 3 + 6 * h * r) (hs : 6 * s2 * s2 = 3 - 6 * h * r) :
+    pamp (hczMatrix r h c2 s2) [1, 0, 1, 0, 1, 1] [1, 0, 1, 0, 1, 1] = 2 * h * r * (r * r) := by
+  rw [hcz_pamp _ _ _ (by decide)]
+  simp [permRec, List.range_succ, List.eraseIdx, expand, expandFrom, entry, hczMatrix]
+  linear_combination (-2*c2^2*h^2*r^2 + 4*h^3*r^3 + 2*h^2*r^2*s2^2) * hr +
+    (-c2^2*r^2 + 2*h*r^3 + r^2*s2^2) * hh +
+    (h^2*r^4) * hc +
+    (-h^2*r^4) * hs
+
+theorem hcz_amp01 (r h c2 s2 : R) (hr : 3 * r * r = 1) (hh : 2 * h * h = 1)
+    (hc : 6 * c2 * c2 = 3 + 6 * h * r) (hs : 6 * s2 * s2 = 3 - 6 * h * r) (hcs : 2 * c2 * s2 = r) :
+    pamp (hczMatrix r h c2 s2) [1, 0, 0, 1, 1, 1] [1, 0, 0, 1, 1, 1] = 2 * h * r * (r * r) := by
+  rw [hcz_pamp _ _ _ (by decide)]
+  simp [permRec, List.range_succ, List.eraseIdx, expand, expandFrom, entry, hczMatrix]
+  linear_combination (-8*c2^2*h^4*r^4 + 2*c2^2*h^2*r^4 - 16*c2*h^3*r^4*s2 + 8*h^4*r^4*s2^2 + 12*h^3*r^5 + 4*h^3*r^3 - 2*h^2*r^4*s2^2) * hr +
+    (12*c2^2*h^2*r^6 - 4*c2^2*h^2*r^4 + c2^2*r^4 - 8*c2*h*r^4*s2 - 12*h^2*r^6*s2^2 + 4*h^2*r^4*s2^2 + 2*h*r^3 - r^4*s2^2) * hh +
+    (h^2*r^6) * hc +
+    (-h^2*r^6) * hs +
+    (24*h^3*r^6) * hcs
+
+theorem hcz_amp10 (r h c2 s2 : R) (hr : 3 * r * r = 1) (hh : 2 * h * h = 1)
+    (hc : 6 * c2 * c2 = 3 + 6 * h * r) (hs : 6 * s2 * s2 = 3 - 6 * h * r) (hcs : 2 * c2 * s2 = r) :
+    pamp (hczMatrix r h c2 s2) [0, 1, 1, 0, 1, 1] [0, 1, 1, 0, 1, 1] = 2 * h * r * (r * r) := by
+  rw [hcz_pamp _ _ _ (by decide)]
+  simp [permRec, List.range_succ, List.eraseIdx, expand, expandFrom, entry, hczMatrix]
+  linear_combination (-8*c2^2*h^4*r^4 + 2*c2^2*h^2*r^4 - 16*c2*h^3*r^4*s2 + 8*h^4*r^4*s2^2 + 12*h^3*r^5 + 4*h^3*r^3 - 2*h^2*r^4*s2^2) * hr +
+    (12*c2^2*h^2*r^6 - 4*c2^2*h^2*r^4 + c2^2*r^4 - 8*c2*h*r^4*s2 - 12*h^2*r^6*s2^2 + 4*h^2*r^4*s2^2 + 2*h*r^3 - r^4*s2^2) * hh +
+    (h^2*r^6) * hc +
+    (-h^2*r^6) * hs +
+    (24*h^3*r^6) * hcs
+
+theorem hcz_amp11 (r h c2 s2 : R) (hr : 3 * r * r = 1) (hh : 2 * h * h = 1)
+    (hc : 6 * c2 * c2 = 3 + 6 * h * r) (hs : 6 * s2 * s2 = 3 - 6 * h * r) (hcs : 2 * c2 * s2 = r) :
+    pamp (hczMatrix r h c2 s2) [0, 1, 0, 1, 1, 1] [0, 1, 0, 1, 1, 1] = -(2 * h * r * (r * r)) := by
+  rw [hcz_pamp _ _ _ (by decide)]
+  simp [permRec, List.range_succ, List.eraseIdx, expand, expandFrom, entry, hczMatrix]
+  linear_combination (-32*c2^2*h^6*r^6 + 24*c2^2*h^4*r^6 - 2*c2^2*h^2*r^6 + 64*c2*h^5*r^6*s2 + 32*c2*h^3*r^6*s2 + 32*h^6*r^6*s2^2 - 24*h^4*r^6*s2^2 - 36*h^3*r^7 - 12*h^3*r^5 - 4*h^3*r^3 + 2*h^2*r^6*s2^2) * hr +
+    (48*c2^2*h^4*r^8 - 16*c2^2*h^4*r^6 - 12*c2^2*h^2*r^8 + 12*c2^2*h^2*r^6 - c2^2*r^6 - 96*c2*h^3*r^8*s2 + 32*c2*h^3*r^6*s2 + 16*c2*h*r^6*s2 - 48*h^4*r^8*s2^2 + 16*h^4*r^6*s2^2 + 12*h^2*r^8*s2^2 - 12*h^2*r^6*s2^2 - 2*h*r^3 + r^6*s2^2) * hh +
+    (-h^2*r^8) * hc +
+    (h^2*r^8) * hs +
+    (-96*h^3*r^8) * hcs
+
+theorem hcz_leak1 (r h c2 s2 : R) (hr : 3 * r * r = 1) (hh : 2 * h * h = 1)
+    (hc : 6 * c2 * c2 = 3 + 6 * h * r) (hs : 6 * s2 * s2 = 3 - 6 * h * r) (hcs : 2 * c2 * s2 = r) :
+    pamp (hczMatrix r h c2 s2) [0, 1, 0, 1, 1, 1] [0, 2, 0, 0, 1, 1] = 0 := by
+  rw [hcz_pamp _ _ _ (by decide)]
+  simp [permRec, List.range_succ, List.eraseIdx, expand, expandFrom, entry, hczMatrix]
+  linear_combination (-16*c2^2*h^3*r^6 + 4*c2^2*h*r^6 + 16*c2*h^2*r^6*s2 + 16*h^3*r^6*s2^2 - 4*h*r^6*s2^2) * hr +
+    (24*c2^2*h*r^8 - 24*c2*r^8*s2 - 24*h*r^8*s2^2 + 12*r^9) * hh +
+    (2*h*r^8) * hc +
+    (-2*h*r^8) * hs +
+    (-12*r^8) * hcs
+
+theorem hcz_leak2 (r h c2 s2 : R) (hr : 3 * r * r = 1) (hh : 2 * h * h = 1)
+    (hc : 6 * c2 * c2 = 3 + 6 * h * r) (hs : 6 * s2 * s2 = 3 - 6 * h * r) (hcs : 2 * c2 * s2 = r) :
+    pamp (hczMatrix r h c2 s2) [0, 1, 0, 1, 1, 1] [0, 0, 0, 2, 1, 1] = 0 := by
+  rw [hcz_pamp _ _ _ (by decide)]
+  simp [permRec, List.range_succ, List.eraseIdx, expand, expandFrom, entry, hczMatrix]
+  linear_combination (16*c2^2*h^3*r^6 - 4*c2^2*h*r^6 - 16*c2*h^2*r^6*s2 - 16*h^3*r^6*s2^2 + 4*h*r^6*s2^2) * hr +
+    (-24*c2^2*h*r^8 + 24*c2*r^8*s2 + 24*h*r^8*s2^2 - 12*r^9) * hh +
+    (-2*h*r^8) * hc +
+    (2*h*r^8) * hs +
+    (12*r^8) * hcs
+
+theorem hcz_leak3 (r h c2 s2 : R) (hr : 3 * r * r = 1) (hh : 2 * h * h = 1)
+    (hc : 6 * c2 * c2 = 3 + 6 * h * r) (hs : 6 * s2 * s2 = 3 - 6 * h * r) (hcs : 2 * c2 * s2 = r) :
+    pamp (hczMatrix r h c2 s2) [0, 1, 1, 0, 1, 1] [0, 0, 1, 1, 1, 1] = 0 := by
+  rw [hcz_pamp _ _ _ (by decide)]
+  simp [permRec, List.range_succ, List.eraseIdx, expand, expandFrom, entry, hczMatrix]
+  linear_combination (2*c2^2*h*r^4 - 8*c2*h^2*r^4*s2 - 2*h*r^4*s2^2) * hr +
+    (12*c2*r^6*s2 - 6*r^7) * hh +
+    (-h*r^6) * hc +
+    (h*r^6) * hs +
+    (6*r^6) * hcs
+
+theorem hcz_leak4 (r h c2 s2 : R) (hr : 3 * r * r = 1) (hh : 2 * h * h = 1)
+    (hc : 6 * c2 * c2 = 3 + 6 * h * r) (hs : 6 * s2 * s2 = 3 - 6 * h * r) (hcs : 2 * c2 * s2 = r) :
+    pamp (hczMatrix r h c2 s2) [1, 0, 0, 1, 1, 1] [1, 1, 0, 0, 1, 1] = 0 := by
+  rw [hcz_pamp _ _ _ (by decide)]
+  simp [permRec, List.range_succ, List.eraseIdx, expand, expandFrom, entry, hczMatrix]
+  linear_combination (-2*c2^2*h*r^4 + 8*c2*h^2*r^4*s2 + 2*h*r^4*s2^2) * hr +
+    (-12*c2*r^6*s2 + 6*r^7) * hh +
+    (h*r^6) * hc +
+    (-h*r^6) * hs +
+    (-6*r^6) * hcs
+
+/-- **heralded CZ, every logical amplitude**: `⟨ab|U|cd⟩ = (2hr·r²) · CZ[ab, cd]`, i.e. `√(2/3)/3 · CZ` -/
+theorem hcz_amp (r h c2 s2 : R) (hr : 3 * r * r = 1) (hh : 2 * h * h = 1)
+    (hc : 6 * c2 * c2 = 3 + 6 * h * r) (hs : 6 * s2 * s2 = 3 - 6 * h * r) (hcs : 2 * c2 * s2 = r)
+    (a b c d : Bool) :
+    gateAmp (hczMatrix r h c2 s2) hczLayout PS.tt [a, b] [c, d] = (2 * h * r * (r * r)) * czEntry a b c d := by
+  unfold gateAmp
+  rw [if_pos (by rfl)]
+  by_cases hd : a = c ∧ b = d
+  · obtain ⟨rfl, rfl⟩ := hd
+    rw [enc_hcz]
+    cases a <;> cases b
+    · simpa [czEntry] using hcz_amp00 r h c2 s2 hr hh hc hs
+    · simpa [czEntry] using hcz_amp01 r h c2 s2 hr hh hc hs hcs
+    · simpa [czEntry] using hcz_amp10 r h c2 s2 hr hh hc hs hcs
+    · simpa [czEntry] using hcz_amp11 r h c2 s2 hr hh hc hs hcs
+  · rw [hcz_amp_off r h c2 s2 a b c d hd, czEntry, if_neg hd, mul_zero]
+
+/-- the scalar `c = 2hr·r² = √(2/3)/3` has `c² = 2/27`: **success probability `2/27`** -/
+theorem hcz_scalar_sq (r h : R) (hr : 3 * r * r = 1) (hh : 2 * h * h = 1) :
+    27 * ((2 * h * r * (r * r)) * (2 * h * r * (r * r))) = 2 := by
+  linear_combination (36*h^2*r^4 + 12*h^2*r^2 + 4*h^2) * hr + 2 * hh
+
+/-- **the logical table of the heralded CZ matrix is exactly `(2hr·r²) • CZ`** (no post-selection) -/
+theorem hcz_table (r h c2 s2 : R) (hr : 3 * r * r = 1) (hh : 2 * h * h = 1)
+    (hc : 6 * c2 * c2 = 3 + 6 * h * r) (hs : 6 * s2 * s2 = 3 - 6 * h * r) (hcs : 2 * c2 * s2 = r) :
+    (gateTable (hczMatrix r h c2 s2) hczLayout PS.tt : Matrix (Fin 4) (Fin 4) R) =
+      (2 * h * r * (r * r)) • czGate := by
+  have key : ∀ i j : Fin 4, (gateTable (hczMatrix r h c2 s2) hczLayout PS.tt : Matrix (Fin 4) (Fin 4) R) i j =
+      ((2 * h * r * (r * r)) • czGate) i j := by
+    intro i j
+    fin_cases i <;> fin_cases j <;>
+      (refine (hcz_amp r h c2 s2 hr hh hc hs hcs _ _ _ _).trans ?_
+       simp [czEntry, czGate])
+  exact Matrix.ext key
+
+/-- **the gate is heralded**: with both heralds satisfied, a logical input reaches no non-logical output.
+Photon number and the spectator modes 0, 2 leave four candidate leak states; their amplitudes are zero. -/
+theorem hcz_noLeak (r h c2 s2 : R) (hr : 3 * r * r = 1) (hh : 2 * h * h = 1)
+    (hc : 6 * c2 * c2 = 3 + 6 * h * r) (hs : 6 * s2 * s2 = 3 - 6 * h * r) (hcs : 2 * c2 * s2 = r) :
+    NoLeak hczLayout (hczMatrix r h c2 s2) := by
+  intro bi hbi u hul hher hlog
+  by_contra hne
+  have hsum : (encode hczLayout bi).sum = u.sum := by
+    by_contra hs'
+    exact hne (PM.C02.pamp_zero_of_sum_ne _ _ _ hs')
+  have h0 := pamp_local_eq (hcz_localOn r h c2 s2) _ _ (encode_length hczLayout bi) hul hne 0 (by decide)
+  have h2 := pamp_local_eq (hcz_localOn r h c2 s2) _ _ (encode_length hczLayout bi) hul hne 2 (by decide)
+  rcases bi with _ | ⟨a, _ | ⟨b, _ | ⟨c, l⟩⟩⟩ <;> try (simp [hczLayout] at hbi)
+  rcases u with _ | ⟨u0, _ | ⟨u1, _ | ⟨u2, _ | ⟨u3, _ | ⟨u4, _ | ⟨u5, _ | ⟨u6, l⟩⟩⟩⟩⟩⟩⟩ <;>
+    try (simp [hczLayout] at hul)
+  rw [enc_hcz] at hsum h0 h2 hne
+  simp [heraldsOk, hczLayout] at hher
+  simp [isLogical, pairCounts, hczLayout] at hlog
+  obtain ⟨h4, h5⟩ := hher
+  subst h4 h5
+  simp at h0 h2
+  subst h0 h2
+  cases a <;> cases b <;> simp at hsum hlog hne
+  · omega
+  · have h13 : u1 = 1 ∧ u3 = 0 := by omega
+    obtain ⟨rfl, rfl⟩ := h13
+    exact hne (hcz_leak4 r h c2 s2 hr hh hc hs hcs)
+  · have h13 : u1 = 0 ∧ u3 = 1 := by omega
+    obtain ⟨rfl, rfl⟩ := h13
+    exact hne (hcz_leak3 r h c2 s2 hr hh hc hs hcs)
+  · have h13 : (u1 = 2 ∧ u3 = 0) ∨ (u1 = 0 ∧ u3 = 2) := by omega
+    rcases h13 with ⟨rfl, rfl⟩ | ⟨rfl, rfl⟩
+    · exact hne (hcz_leak1 r h c2 s2 hr hh hc hs hcs)
+    · exact hne (hcz_leak2 r h c2 s2 hr hh hc hs hcs)
+
+/-- the heralded CZ as a gate implementation: support `[1,3,4,5]`, scalar `2hr·r²` -/
+def hczImpl (r h c2 s2 : R) : GateImpl hczLayout R :=
+  ⟨[1, 3, 4, 5], hczMatrix r h c2 s2, (czGate : Matrix (Fin 4) (Fin 4) R), 2 * h * r * (r * r)⟩
+
+/-- the package `heralded_circuit_implements` (C20Comp.lean) asks of every gate: local, heralded, table `c • CZ` -/
+theorem hcz_gateImpl_ok (r h c2 s2 : R) (hr : 3 * r * r = 1) (hh : 2 * h * h = 1)
+    (hc : 6 * c2 * c2 = 3 + 6 * h * r) (hs : 6 * s2 * s2 = 3 - 6 * h * r) (hcs : 2 * c2 * s2 = r) :
+    (hczImpl r h c2 s2).Ok PS.tt :=
+  ⟨hcz_localOn r h c2 s2, hcz_noLeak r h c2 s2 hr hh hc hs hcs, hcz_table r h c2 s2 hr hh hc hs hcs⟩
+
+theorem hczLayout_ok : hczLayout.ok = true := by decide
+
+/-! ### the statements for the circuit as built -/
+
+/-- the circuit `build_circuit` returns has the logical table `(2hr·r²) • CZ` … -/
+theorem hczCircuit_table (r h c2 s2 : R) (hr : 3 * r * r = 1) (hh : 2 * h * h = 1)
+    (hc : 6 * c2 * c2 = 3 + 6 * h * r) (hs : 6 * s2 * s2 = 3 - 6 * h * r) (hcs : 2 * c2 * s2 = r) :
+    (gateTable (hczCircuit r h c2 s2) hczLayout PS.tt : Matrix (Fin 4) (Fin 4) R) =
+      (2 * h * r * (r * r)) • czGate := by
+  rw [hczCircuit_eq r h c2 s2 hh]
+  exact hcz_table r h c2 s2 hr hh hc hs hcs
+
+/-- … and does not leak -/
+theorem hczCircuit_noLeak (r h c2 s2 : R) (hr : 3 * r * r = 1) (hh : 2 * h * h = 1)
+    (hc : 6 * c2 * c2 = 3 + 6 * h * r) (hs : 6 * s2 * s2 = 3 - 6 * h * r) (hcs : 2 * c2 * s2 = r) :
+    NoLeak hczLayout (hczCircuit r h c2 s2) := by
+  rw [hczCircuit_eq r h c2 s2 hh]
+  exact hcz_noLeak r h c2 s2 hr hh hc hs hcs
+
+/-! ### non-vacuity: the numbers of the code satisfy the five relations -/
+
+/-- over `ℝ`: `r = 1/√3`, `h = 1/√2`, `c2 = √((3+√6)/6)`, `s2 = √((3−√6)/6)` (`6·h·r = √2·√3 = √6`) -/
+theorem hcz_params_exist : ∃ r h c2 s2 : ℝ, 3 * r * r = 1 ∧ 2 * h * h = 1 ∧ 6 * c2 * c2 = 3 + 6 * h * r ∧
+    6 * s2 * s2 = 3 - 6 * h * r ∧ 2 * c2 * s2 = r := by
+  have haa : √2 * √2 = (2 : ℝ) := Real.mul_self_sqrt (by norm_num)
+  have hbb : √3 * √3 = (3 : ℝ) := Real.mul_self_sqrt (by norm_num)
+  have ha0 : (0 : ℝ) < √2 := Real.sqrt_pos.2 (by norm_num)
+  have hb0 : (0 : ℝ) < √3 := Real.sqrt_pos.2 (by norm_num)
+  have ha' : (√2 : ℝ)⁻¹ = √2 / 2 := inv_eq_of_mul_eq_one_right (by linear_combination haa / 2)
+  have hb' : (√3 : ℝ)⁻¹ = √3 / 3 := inv_eq_of_mul_eq_one_right (by linear_combination hbb / 3)
+  have hab : √2 * √3 ≤ (3 : ℝ) := by nlinarith [mul_pos ha0 hb0]
+  have hA0 : (0 : ℝ) ≤ (3 + √2 * √3) / 6 := by positivity
+  have hB0 : (0 : ℝ) ≤ (3 - √2 * √3) / 6 := div_nonneg (by linarith) (by norm_num)
+  have hA := Real.mul_self_sqrt hA0
+  have hB := Real.mul_self_sqrt hB0
+  have hAB : √((3 + √2 * √3) / 6) * √((3 - √2 * √3) / 6) = √3 / 6 := by
+    rw [← Real.sqrt_mul hA0, Real.sqrt_eq_iff_mul_self_eq (mul_nonneg hA0 hB0) (by positivity)]
+    linear_combination (-(√3 * √3) / 36) * haa - (1 / 12) * hbb
+  have h6 : (√6 : ℝ) = √2 * √3 := by rw [← Real.sqrt_mul (by norm_num)]; norm_num
+  refine ⟨(√3)⁻¹, (√2)⁻¹, √((3 + √6) / 6), √((3 - √6) / 6), ?_, ?_, ?_, ?_, ?_⟩
+  · rw [hb']; linear_combination hbb / 3
+  · rw [ha']; linear_combination haa / 2
+  · rw [h6, ha', hb']; linear_combination 6 * hA
+  · rw [h6, ha', hb']; linear_combination 6 * hB
+  · rw [h6, hb']; linear_combination 2 * hAB
 
 end PM.C20
